@@ -27,6 +27,7 @@ void onTransfer(int mode, char*, std::streamsize count) {
 // @synth:<kind>:<version>: a file built through the API, for geometry kinds no sample file contains.
 //   strips : a NiTriStrips shape (NiTriStripsData with three strips, one of them a degenerate 2-point strip) - OB / FO3 / SK
 //   shape  : CreateShapeFromData (NiTriShape or BSTriShape, by version) with normals and texture coordinates
+//   sits   : the same for FO4 / FO76 with a segmentation that has sub-segments (SetShapeSegments)
 std::string synth_file(const std::string& spec) {
 	auto p1 = spec.find(':');
 	std::string kind = spec.substr(0, p1), ver = p1 == std::string::npos ? "" : spec.substr(p1 + 1);
@@ -65,7 +66,26 @@ std::string synth_file(const std::string& spec) {
 	}
 	else {
 		std::vector<Triangle> tris = {{0, 1, 4}, {1, 5, 4}, {2, 3, 6}, {3, 7, 6}};
-		nif.CreateShapeFromData("Shape", &verts, &tris, &uvs, &norms);
+		auto shape = nif.CreateShapeFromData("Shape", &verts, &tris, &uvs, &norms);
+		if (kind == "sits" && shape) {
+			// FO4-style segmentation with sub-segments (no sample file has sub-segments)
+			NifSegmentationInfo inf;
+			inf.ssfFile = "Meshes\\test.ssf";
+			NifSegmentInfo s0, s1;
+			s0.partID = 0;
+			NifSubSegmentInfo a, b2;
+			a.partID = 1;
+			a.userSlotID = 30;
+			a.material = 0x12345678;
+			a.extraData = {0.5f, 1.0f};
+			b2.partID = 2;
+			b2.userSlotID = 31;
+			s0.subs = {a, b2};
+			s1.partID = 3;
+			inf.segs = {s0, s1};
+			std::vector<int> parts = {1, 2, 0, 3};
+			NifFile::SetShapeSegments(shape, inf, parts);
+		}
 	}
 	NifSaveOptions raw;
 	raw.optimize = false;
@@ -111,6 +131,9 @@ std::string battery(NifFile& nif) {
 			if (nif.GetTextureSlot(shape, tex, t))
 				++ntex;
 		nif.GetTexturePathRefs(shape);
+		NifSegmentationInfo sinf;
+		std::vector<int> sparts;
+		NifFile::GetShapeSegments(shape, sinf, sparts);
 	}
 	auto nodes = nif.GetNodes();
 	std::vector<NiObject*> tree;
